@@ -52,6 +52,9 @@ var harmless = map[string]bool{"os.IsNotExist": true, "os.IsExist": true, "os.Ge
 	"ioutil.NopCloser": true, "ioutil.ReadAll": true, "ioutil.Discard": true, "os.Hostname": true, "os.Getuid": true, "filepath.Match": true, "filepath.ToSlash": true, "filepath.FromSlash": true,
 	"os.NewSyscallError": true, "os.Getpagesize": true, "syscall.Errno": true, "os.Environ": true, "os.LookupEnv": true, "os.Setenv": true, "os.Getwd": true, "os.FileMode": true, "filepath.IsAbs": true}
 
+var r9funcs = map[string]bool{}
+var r2funcs = map[string]bool{}
+
 func main() {
 	repo := flag.String("repo", "/repo", "")
 	out := flag.String("out", "", "output dir")
@@ -62,7 +65,20 @@ func main() {
 	flag.Parse()
 	rules := map[string]bool{}
 	for _, r := range strings.Split(*rulesArg, ",") {
-		rules[strings.TrimSpace(r)] = true
+		r = strings.TrimSpace(r)
+		if strings.HasPrefix(r, "R9:") { // R9:FuncA|FuncB = only inside these top-level functions/methods
+			for _, fn := range strings.Split(strings.TrimPrefix(r, "R9:"), "|") {
+				r9funcs[fn] = true
+			}
+			r = "R9"
+		}
+		if strings.HasPrefix(r, "R2:") { // likewise for go statements
+			for _, fn := range strings.Split(strings.TrimPrefix(r, "R2:"), "|") {
+				r2funcs[fn] = true
+			}
+			r = "R2"
+		}
+		rules[r] = true
 	}
 	cfg := &packages.Config{Mode: packages.NeedName | packages.NeedFiles | packages.NeedSyntax | packages.NeedTypes | packages.NeedTypesInfo | packages.NeedImports | packages.NeedDeps, Dir: *repo}
 	if *modfile != "" {
@@ -134,6 +150,7 @@ type rewriter struct {
 	tmp      int
 	usedVsim bool
 	usedFs   bool
+	curFunc  string // name of the enclosing top-level function (pre-order walk)
 }
 
 func (rw *rewriter) newName() string { rw.tmp++; return fmt.Sprintf("vsimTmp%d", rw.tmp) }
@@ -212,6 +229,9 @@ func (rw *rewriter) run() {
 	preempt := map[ast.Stmt]string{}
 	if rw.rules["R9"] {
 		ast.Inspect(f, func(n ast.Node) bool {
+			if fd, ok := n.(*ast.FuncDecl); ok && len(r9funcs) > 0 && !r9funcs[fd.Name.Name] {
+				return false
+			}
 			var list []ast.Stmt
 			switch b := n.(type) {
 			case *ast.BlockStmt:
@@ -286,8 +306,10 @@ func (rw *rewriter) run() {
 					rw.counts["R7"]++
 				}
 			}
+		case *ast.FuncDecl:
+			rw.curFunc = n.Name.Name
 		case *ast.GoStmt:
-			if rw.rules["R2"] {
+			if rw.rules["R2"] && (len(r2funcs) == 0 || r2funcs[rw.curFunc]) {
 				rw.rewriteGo(c, n)
 			}
 		case *ast.RangeStmt:
@@ -485,6 +507,16 @@ func (rw *rewriter) rewriteRange(c *astutil.Cursor, n *ast.RangeStmt) {
 		}
 	case *types.Struct, *types.Array:
 		helper = "SortedKeysBy"
+	case *types.Pointer:
+		// a pointer key has no order of its own, but one whose type has a String() method is
+		// ordered by that text (fmt.Sprint calls it): e.g. keep-balance's *KeepMount
+		if ms := types.NewMethodSet(mt.Key()); ms.Lookup(nil, "String") != nil {
+			helper = "SortedKeysBy"
+			rw.counts["R4-by-String"]++
+		} else {
+			rw.skip("R4", n, "map key type "+mt.Key().String()+" has no canonical order")
+			return
+		}
 	default:
 		rw.skip("R4", n, "map key type "+mt.Key().String()+" has no canonical order")
 		return
